@@ -44,11 +44,23 @@ def addSupLink : List SupLink → Nat → Nat → Sig → List SupLink
     if l.src == src then { l with sigs := setSig l.sigs s } :: ls
     else l :: addSupLink ls src h s
 
+/-- `SupLinks.AddSupLink` on a block HEADER (since fix 03420039): a link is identified by source
+    hash AND declared source height; the header of a relayed block may carry an entry that
+    names the right source with a wrong height (such an entry is discarded as a whole by
+    `applySupLinks`), and a signature must not be merged into it. `Checkpoint.AddVerification`
+    (`addSupLink`) still merges by source hash: checkpoint links are built from verified
+    verifications only. -/
+def addSupLinkH : List SupLink → Nat → Nat → Sig → List SupLink
+  | [], src, h, s => [{ src := src, srcHeight := h, sigs := [s] }]
+  | l :: ls, src, h, s =>
+    if l.src == src && l.srcHeight == h then { l with sigs := setSig l.sigs s } :: ls
+    else l :: addSupLinkH ls src h s
+
 def findLink (ls : List SupLink) (src : Nat) : Option SupLink := ls.find? (fun l => l.src == src)
 
-/-- `AddSupLink` of every signature of `extra` into `base` (ApplyBlock on an already applied block) -/
+/-- header-level `AddSupLink` of every signature of `extra` into `base` (ApplyBlock on an already applied block) -/
 def mergeSup (base extra : List SupLink) : List SupLink :=
-  extra.foldl (fun acc l => l.sigs.reverse.foldl (fun acc2 sg => addSupLink acc2 l.src l.srcHeight sg) acc) base
+  extra.foldl (fun acc l => l.sigs.reverse.foldl (fun acc2 sg => addSupLinkH acc2 l.src l.srcHeight sg) acc) base
 
 /-- `SupLink.IsMajority` -/
 def isMajority (l : SupLink) (nVal : Nat) : Bool := l.sigs.length > nVal * 2 / 3
@@ -441,7 +453,7 @@ def State.applyBlock (s : State) (b : Header) : State × Bool × List SupLink :=
                 if me ≥ s.cfg.nVal then (b.sup, s1.posted)
                 else if target.sup.any (fun l => hasSlot l me) then (b.sup, s1.posted)
                 else if !(s1.verifyVerification tree1 me src.hash src.height b.id b.height true) then (b.sup, s1.posted)
-                else (addSupLink b.sup src.hash src.height { slot := me, valid := true },
+                else (addSupLinkH b.sup src.hash src.height { slot := me, valid := true },
                       s1.posted ++ [(me, src.hash, b.id)])
           let s2 := { s1 with posted := posted1 }
           let (tree2, ckpts2, aff, ok) := s2.applySupLinks b.id sup1 tree1 s2.ckpts []
@@ -581,7 +593,7 @@ def State.authVerification (s : State) (order src tgt : Nat) (sigOk : Bool) : St
         match s.header tgt with
         | none => ({ s with tree := tree', ckpts := ckpts', posted := s.posted ++ [(order, src, tgt)] }, .err)
         | some th =>
-          let th' := { th with sup := addSupLink th.sup src source.height { slot := order, valid := sigOk } }
+          let th' := { th with sup := addSupLinkH th.sup src source.height { slot := order, valid := sigOk } }
           let s1 := { s with tree := tree', ckpts := ckpts', posted := s.posted ++ [(order, src, tgt)],
                              headers := th' :: s.headers.filter (fun h => h.id != tgt) }
           -- tryRollback
